@@ -85,54 +85,6 @@ namespace World
 
 theorem noObs_hasObservers (w : World) (evt : Nat) : w.noObs.obs.hasObservers evt = false := rfl
 
-theorem frames_getOrCreate (a : Nat) (rels : List RelID) : Frames (getOrCreate a rels) := by
-  unfold getOrCreate
-  refine Frames.bind (frames_getTable _ _) fun r => ?_
-  cases r with
-  | some t => exact Frames.pure _
-  | none => exact frames_createTable _ _
-
-theorem getExchangeTargets_go_any (T : Table) (w w' : World) : ∀ (rels : List RelID)
-    (ts : List Ent) (ch : Bool) (cm : Mask) (seen : List Comp),
-    getExchangeTargets.go T w' ts ch cm seen rels
-      = (getExchangeTargets.go T w ts ch cm seen rels).mapS fun _ => w'
-  | [], _, _, _, _ => rfl
-  | r :: rest, ts, ch, cm, seen => by
-    simp only [getExchangeTargets.go]
-    split
-    · rfl
-    · split
-      · rfl
-      · split
-        · rfl
-        · split
-          · exact getExchangeTargets_go_any T w w' rest _ _ _ _
-          · exact getExchangeTargets_go_any T w w' rest _ _ _ _
-
-/-- `getExchangeTargets` only passes the world through -/
-theorem getExchangeTargets_any (T : Table) (rels : List RelID) (w w' : World) :
-    getExchangeTargets T rels w' = (getExchangeTargets T rels w).mapS fun _ => w' := by
-  unfold getExchangeTargets
-  rw [getExchangeTargets_go_any T w w']
-  cases getExchangeTargets.go T w T.targets false Mask.empty [] rels with
-  | panic k s => rfl
-  | ok r s =>
-    obtain ⟨ts, ch, cm⟩ := r
-    simp only [Res.mapS_ok]
-    cases ch <;> rfl
-
-theorem getExchangeTargets_state (T : Table) (rels : List RelID) (w : World) :
-    (getExchangeTargets T rels w).state = w := by
-  unfold getExchangeTargets
-  have := getExchangeTargets_go_state T w rels T.targets false Mask.empty []
-  cases hr : getExchangeTargets.go T w T.targets false Mask.empty [] rels with
-  | panic k s => rw [hr] at this; exact this
-  | ok r s =>
-    rw [hr] at this
-    obtain ⟨ts, ch, cm⟩ := r
-    simp only [Res.state] at this
-    subst this
-    cases ch <;> rfl
 
 /-! ## 2. the change mask -/
 
